@@ -1020,7 +1020,14 @@ impl ImplementationRule for JoinRule {
                         OrderingSpec::asc(right_idx)
                     })
                     .collect();
-                let output_ordering: Vec<_> = left_keys.iter().map(|e| (e.clone(), true)).collect();
+                // The output follows the order of the left keys only if every output row carries a
+                // left row: RIGHT and FULL joins interleave rows whose left side is all NULL.
+                let output_ordering: Vec<_> =
+                    if matches!(join.join_type, JoinType::Inner | JoinType::Left) {
+                        left_keys.iter().map(|e| (e.clone(), true)).collect()
+                    } else {
+                        Vec::new()
+                    };
 
                 let mut merge_expr = PhysicalExpr::new(
                     PhysicalOperator::MergeJoin(MergeJoinOp {
